@@ -14,11 +14,15 @@ CLAIMS = {
     "C02": dict(
         text="Coq theorem over the two interpreter models regenerated from source on every run: GenCpu65.Step = GenCpuAlt.Step as functions (hence for every "
              "state incl. E=1/D=1/any widths/pending interrupts, every memory image, and by C02_run_eq every number of steps: same registers, flags, stop flag, "
-             "memory, cycles, cycle totals, bus trace and panic status), proved routine by routine (129 lemmas) so that an edit to one interpreter only breaks a named lemma.",
+             "memory, cycles, cycle totals, bus trace and panic status; likewise Reset, TriggerIRQ, triggerNMI). Two routes, chosen per run (checks/cpulink.py): "
+             "PIVOT - each regenerated model is proved equal to its committed snapshot function by function (261 kernel-checked lemmas closed by conversion) and "
+             "the two snapshots are equal by the static theorem Props/C02Snap.v (129 routine-by-routine lemmas); DIRECT - the 129 routine-by-routine lemmas over "
+             "the regenerated models themselves (when a snapshot is out of date). An edit to one interpreter only breaks a named lemma.",
         note="Trusted: Coq kernel; functional_extensionality_dep (stdlib axiom, bus-helper lemmas); translator /verif/gen + Lib/Machine.v (flat memory behind both buses = "
              "the property's 'whole address space mapped' assumption), validated every run by lockstep execution of the extracted models (ExtrOcamlBasic only) against both "
-             "compiled interpreters on ~3x10^5 steps (quick) with full field/trace comparison; the Go lockstep falsifier compares the two real interpreters directly.",
-        tech=REGEN, ref="DESIGN.md 5/C02"),
+             "compiled interpreters on ~3x10^5 steps (quick) with full field/trace comparison; the Go lockstep falsifier compares the two real interpreters directly. "
+             "Known limit: a behaviour-preserving restructuring of ONE interpreter that is not a conversion ends as no-failing-input-found (DESIGN, harmless rewrites).",
+        tech=REGEN, ref="DESIGN.md 0 / C02 as built"),
     "C04": dict(
         text="Coq theorem per mapper, forall n < 2^24: right-inverse and class/page-offset clauses, proved by exhaustive enumeration inside the kernel (all24_sound + VM cast) "
              "over the functions regenerated from the Go source on every run; the bound 2^24 is the property's own domain, so this is a complete proof, not a sample.",
